@@ -76,6 +76,14 @@ class Verifier(Exec):
         if node.exc is None:
             return [(st, ("raise", st.env["$exc"]))]
 
+        if isinstance(node.exc, ast.Call) and isinstance(node.exc.func, ast.Name) and \
+                node.exc.func.id in ("TypeError", "ValueError", "KeyError", "IndexError") and \
+                len(node.exc.args) == 1 and isinstance(node.exc.args[0], ast.BinOp) and \
+                isinstance(node.exc.args[0].op, ast.Mod) and isinstance(node.exc.args[0].left, ast.Constant) and \
+                isinstance(node.exc.args[0].left.value, str):
+            # raise E("text %s" % (...)): the message is not modelled, its operands are not evaluated
+            return [(st, ("raise", exc(node.exc.func.id)))]
+
         def f(s, v):
             if v.kind == "excobj":
                 e = exc(v.x)
@@ -159,6 +167,31 @@ class Verifier(Exec):
                 raise Unsupported("empty list literal assigned to %s needs ghost local_types" % node.targets[0].id)
             st.env[node.targets[0].id] = self.new_list(st, ek, z3.K(INT, ELEM_DEFAULT[ek]), z3.IntVal(0))
             return [(st, None)]
+
+        if isinstance(node.value, ast.List) and not node.value.elts and len(node.targets) == 1 \
+                and isinstance(node.targets[0], ast.Attribute) and node.targets[0].attr in FIELDS \
+                and FIELDS[node.targets[0].attr][0] == "list":
+            # `obj.field = []`: the element kind is the field's
+            ek = FIELDS[node.targets[0].attr][1]
+            v = self.new_list(st, ek, z3.K(INT, ELEM_DEFAULT[ek]), z3.IntVal(0))
+            return self.assign_to(st, node.targets[0], v)
+        if isinstance(node.value, ast.List) and node.value.elts and len(node.targets) == 1 \
+                and isinstance(node.targets[0], ast.Name):
+            lt = (self.cur_stack[-1].ghost.get("local_types") or {}) if self.cur_stack[-1] else {}
+            ek = lt.get(node.targets[0].id)
+            if ek == "U":
+                # `x = [a, b]` with a declared union element kind: items are injected into U
+                res = []
+                for s, vals in self.ev_seq(node.value.elts, st):
+                    if isinstance(vals, SV):
+                        res.append((s, ("raise", vals)))
+                        continue
+                    arr = z3.K(INT, ELEM_DEFAULT["U"])
+                    for i, v in enumerate(vals):
+                        arr = z3.Store(arr, i, self.coerce(v, "U"))
+                    s.env[node.targets[0].id] = self.new_list(s, "U", arr, z3.IntVal(len(vals)))
+                    res.append((s, None))
+                return res
 
         def f(s, v):
             outs = [(s, None)]
@@ -469,6 +502,23 @@ class Verifier(Exec):
                     return [(h, None)]
                 s.env.setdefault(var, SV(ELEM_KIND[seq.x], fresh(var, ELEM_SORT[seq.x])))
                 res.extend(self.run_loop(node, s, guard, pre, targets_extra=[cnt, var]))
+                continue
+            if seq.kind == "listiter":
+                # continue a list iterator from its current position (iter(l); next(it); for x in it)
+                elem, posname = seq.x
+                s.env[cnt] = s.env[posname]
+
+                def guard(h, seq=seq):
+                    return self.fork(h, h.env[cnt].z < self.llen(h, seq.z), "for_%s" % var)
+
+                def pre(h, seq=seq, elem=elem, posname=posname):
+                    c = self.lcontent(h, seq.z, elem)
+                    h.env[var] = SV(ELEM_KIND[elem], z3.Select(c, h.env[cnt].z))
+                    h.env[cnt] = mk_int(h.env[cnt].z + 1)
+                    h.env[posname] = h.env[cnt]
+                    return [(h, None)]
+                s.env.setdefault(var, SV(ELEM_KIND[elem], fresh(var, ELEM_SORT[elem])))
+                res.extend(self.run_loop(node, s, guard, pre, targets_extra=[cnt, var, posname]))
                 continue
             if seq.kind == "iter":
                 # abstract iterable: unknown length, arbitrary elements of the
